@@ -465,11 +465,28 @@ def gen_rank(rng: random.Random, cfg: GenCfg, rank: int) -> RankTrace:
         sim.host("cpu_op", "aten::linear", main_tid + 9, lo + rng.choice((0, 1, 3)), (hi - lo) + rng.choice((5, 50)), **{"Sequence number": 1})
         hi = max(e["ts"] + e["dur"] for e in events)
     if cfg.gpu_annotations:
-        ks = [e for e in events if e["pid"] == 0 and e["cat"] == "kernel"]
-        if ks:
-            k = rng.choice(ks)
-            events.append({"ph": "X", "cat": "gpu_user_annotation", "name": "## forward ##", "pid": 0, "tid": k["tid"],
-                           "ts": k["ts"], "dur": k["dur"], "args": {"External id": 1}})
+        # GPU-side user annotations: per stream an outer region over a run of consecutive activities and, inside it, sometimes a
+        # nested one over a sub-run (the "leaf" a kernel is attributed to)
+        bystream: Dict[int, List[Dict[str, Any]]] = {}
+        for e in events:
+            if e["pid"] == 0 and e["cat"] in ("kernel", "gpu_memcpy", "gpu_memset"):
+                bystream.setdefault(e["tid"], []).append(e)
+        ext = 1
+        for s_, ks in sorted(bystream.items()):
+            ks.sort(key=lambda e: (e["ts"], e["dur"]))
+            i = rng.randrange(len(ks))
+            j = rng.randrange(i, len(ks))
+            spans = [(i, j, rng.choice(["## forward ##", "my_region"]))]
+            if j > i and rng.random() < 0.6:
+                a = rng.randrange(i, j + 1)
+                b = rng.randrange(a, j + 1)
+                if (a, b) != (i, j):
+                    spans.append((a, b, rng.choice(["## optimizer ##", "inner_region", "## forward ##"])))
+            for a, b, nm in spans:
+                lo_, hi_ = ks[a]["ts"], max(x["ts"] + x["dur"] for x in ks[a:b + 1])
+                events.append({"ph": "X", "cat": "gpu_user_annotation", "name": nm, "pid": 0, "tid": s_,
+                               "ts": lo_, "dur": hi_ - lo_, "args": {"External id": ext}})
+                ext += 1
     # file order
     host_plain = [e for e in events if e["pid"] != 0 and e["cat"] == "cpu_op"]
     first_host = rng.choice(host_plain) if cfg.shuffle else host_plain[0]
